@@ -206,6 +206,19 @@ func c25Chunk(p *an.Prog, r *an.R) {
 				if o == nil || o.Type().String() != "bool" || truth {
 					return false
 				}
+				// a sent-flag is a bool that is set to true somewhere in this sender
+				isFlag := false
+				ast.Inspect(d.Decl.Body, func(m ast.Node) bool {
+					if a2, ok := m.(*ast.AssignStmt); ok && a2.Tok == token.ASSIGN && len(a2.Lhs) == 1 && len(a2.Rhs) == 1 && an.UsesObj(info, a2.Lhs[0], o) {
+						if tv := info.Types[a2.Rhs[0]]; tv.Value != nil && tv.Value.String() == "true" {
+							isFlag = true
+						}
+					}
+					return true
+				})
+				if !isFlag {
+					return false
+				}
 				flag = o
 				return true
 			}, nil)
@@ -227,11 +240,11 @@ func c25Chunk(p *an.Prog, r *an.R) {
 			okSet := true
 			for _, b := range g.C.Blocks {
 				cond := an.CondOf(b)
-				if cond == nil || !an.Implied(cond, false, func(atom ast.Expr, truth bool) bool { return an.UsesObj(info, atom, flag) && !truth }) && !an.Implied(cond, true, func(atom ast.Expr, truth bool) bool { return an.UsesObj(info, atom, flag) && !truth }) {
+				if cond == nil || !an.ImpliedX(g.Info, g.Body, cond, false, func(atom ast.Expr, truth bool) bool { return an.UsesObj(info, atom, flag) && !truth }) && !an.ImpliedX(g.Info, g.Body, cond, true, func(atom ast.Expr, truth bool) bool { return an.UsesObj(info, atom, flag) && !truth }) {
 					continue
 				}
 				for k := range b.Succs {
-					if !an.Implied(cond, k == 0, func(atom ast.Expr, truth bool) bool { return an.UsesObj(info, atom, flag) && !truth }) {
+					if !an.ImpliedX(g.Info, g.Body, cond, k == 0, func(atom ast.Expr, truth bool) bool { return an.UsesObj(info, atom, flag) && !truth }) {
 						continue
 					}
 					start := an.Loc{B: b.Succs[k], I: 0}
@@ -282,11 +295,20 @@ func c25Sampling(p *an.Prog, r *an.R) {
 	info := sendD.Pkg.TypesInfo
 	g := an.NewG(info, sendD.Decl.Body)
 	event := an.Param(info, sendD.Decl, 0)
-	mentionsAgg := func(e ast.Node) bool {
+	var mentionsAgg func(e ast.Node) bool
+	mentionsAgg = func(e ast.Node) bool {
 		f := false
 		ast.Inspect(e, func(m ast.Node) bool {
 			if x, ok := m.(ast.Expr); ok && selField(info, x, aggF) {
 				f = true
+			}
+			// a single-definition local holding (a copy of) the aggregate
+			if id, ok := m.(*ast.Ident); ok && !f {
+				if dd := defOf(info, sendD.Decl.Body, id); dd != nil && dd != ast.Expr(id) {
+					if _, isID := ast.Unparen(dd).(*ast.Ident); !isID && mentionsAgg(dd) {
+						f = true
+					}
+				}
 			}
 			return true
 		})
